@@ -118,13 +118,22 @@ func checkC19(c PrepCase, o *Obs) error {
 	if !validCtl {
 		if err == nil {
 			// the invalid control message must then fail when written and write nothing
-			tr := xport.NewScriptConn(nil, nil)
-			conn, e := NewConn(ConnCfg{Server: true}, tr, nil)
-			if e != nil {
-				return e
-			}
-			if e := conn.WritePreparedMessage(pm); e == nil || len(tr.Wrote) > 0 {
-				return fmt.Errorf("a prepared control message of %d bytes was accepted (err=%v, %d bytes written)", len(orig), e, len(tr.Wrote))
+			// on every kind of connection, however often it is sent, and without
+			// harming the connection (direct messages behave like that)
+			for _, cfg := range []ConnCfg{{Server: true}, {Server: false}, {Server: true, Compress: true}} {
+				tr := xport.NewScriptConn(nil, nil)
+				conn, e := NewConn(cfg, tr, nil)
+				if e != nil {
+					return e
+				}
+				for try := 1; try <= 3; try++ {
+					if e := conn.WritePreparedMessage(pm); e == nil || len(tr.Wrote) > 0 {
+						return fmt.Errorf("a prepared control message of %d bytes was accepted on send %d to a %s connection (err=%v, %d bytes written)", len(orig), try, cfg.Role(), e, len(tr.Wrote))
+					}
+				}
+				if e := conn.WriteMessage(websocket.TextMessage, []byte("still usable")); e != nil {
+					return fmt.Errorf("after an invalid prepared control message was refused, the %s connection refuses a valid message: %v", cfg.Role(), e)
+				}
 			}
 		}
 		o.Class("invalid_control_prepared")
